@@ -156,7 +156,8 @@ class C16(Property):
         for method in GENERAL:
             for ndim in ((1, 2) if tier == 'quick' else (1, 2, 3)):
                 yield self.seq_case(rng, method, ndim)
-        yield self.seq_case(rng, 'akima', 3)
+        if tier != 'quick':
+            yield self.seq_case(rng, 'akima', 3)
         n = 230 if tier == 'quick' else 4000
         for _ in range(n):
             kind = rng.choice(['interp_dx', 'interp_dx', 'interp_dx', 'train', 'mmsc', 'mmsc', 'spline',
@@ -177,6 +178,8 @@ class C16(Property):
             elif kind == 'train':
                 ndim = rng.choice([1, 2, 2, 3])
                 method = rng.choice(LINEAR)
+                if tier == 'quick' and ndim == 3 and method == 'cubic':
+                    ndim = 2      # exact-rational value gradients of 3-D global splines are slow: thorough only
                 grids, vals = self.gen_table(rng, method, ndim)
                 npt = rng.choice([1, 2, 3])
                 pts = [b[0] for b in self.far_points(rng, grids, npt, 1)]
@@ -186,6 +189,8 @@ class C16(Property):
                 ndim = rng.choice([1, 2, 2, 3])
                 tg = rng.random() < 0.6
                 method = rng.choice(GENERAL) if (tg or rng.random() < 0.5) else rng.choice(FIXED[ndim])
+                if tier == 'quick' and tg and ndim == 3 and method in ('cubic', 'akima'):
+                    ndim = 2      # see above
                 grids, vals = self.gen_table(rng, method, ndim)
                 if tg and rng.random() < 0.5 and (ndim < 3 or tier != 'quick'):
                     yield self.seq_case(rng, method, ndim)
